@@ -47,6 +47,9 @@ CHECKS['C10'] = dict(text='For each typed document kind (.dsc, .changes, debian/
 CHECKS['C19'] = dict(text='For every build-dependency graph on 3 sources (thorough: 4), rendered as .dsc texts with "Binary: a, b" lists, symbolic names and every carrier of an edge (three build-dependency fields, alternatives, architecture restrictions) plus decoys that must be ignored, the real ParseDsc + OrderDSCForBuild + topsort (from SSA) are executed symbolically: acyclic graphs must yield a permutation with every required edge respected and the same order on a second call, cyclic ones an error.',
              note='Trusted: go/ssa, interpreter, reflect model, z3. The graph shapes are enumerated; names and the parser paths they induce are symbolic.',
              ref='DESIGN.md 2/C19')
+CHECKS['C12'] = dict(text='Wiring-level claim: the four digest constructors are replaced by abstract hashers that record every byte written in order and whose Sum is an uninterpreted function H_alg of those bytes. With symbolic content, every split into writes/reads and ordered selections of the algorithms, the real hashio writers/readers (io.MultiWriter/TeeReader from SSA) are shown to pass the bytes through unchanged, count them, and report H_name(content); the real FileHash.Verifier for entries parsed from Checksums-Sha256/-Sha512, obtained through BestChecksums and built by FileHashFromHasher is shown to accept exactly when H_{entry algorithm}(content) equals the recorded hash.',
+             note='Trusted: go/ssa, interpreter, reflect model, z3, and the digest functions themselves (stdlib; uninterpreted here). No native translator validation is possible for digests (real vs. uninterpreted); counterexamples are still replayed natively with the real digests.',
+             ref='DESIGN.md 2/C12')
 NA = {}
 props = [json.loads(l) for l in open(os.path.join(V, 'properties.jsonl'))]
 checks = []
